@@ -122,4 +122,24 @@ PLAN = {
                 thorough=[("dmg", "release", 6000), ("dmg", "checked", 1000), ("dmgcat", "release", 5000)],
                 assumptions=["refflac decides whether altered bytes happen to be another valid stream",
                              "checksum-consistent random edits are not judged for silent acceptance (C03's question)"]),
+    "C10": dict(level="exploration",
+                rule=("each run builds a finished file with 0/1/several padding blocks and drawn comment/picture/application/seek-table/"
+                      "cue-sheet blocks, then applies a history of 1-12 update_file calls on the simulated disk (benign faults on both "
+                      "files): comment growth sized to land -8..+8 bytes around the exact fit of the first padding block, add/drop "
+                      "pictures and application blocks, resize/remove/add padding, an over-size (>= 2^24 byte) block, a second PNG icon, "
+                      "a failing callback; the history continues on whichever file a step produced; fingerprint = API result sequence + "
+                      "I/O events; non-trivial = at least one transfer >= 8 bytes"),
+                quick=[("c10", "release", 6000)],
+                thorough=[("c10", "release", 300000), ("c10", "checked", 30000)],
+                assumptions=["edited list = the BlockList as it stands at the end of the callback", "metadata boundaries from refflac"]),
+    "C11": dict(level="exploration",
+                rule=("restricted claim: block values are sampled (STREAMINFO extremes incl. 1-bit and 32-bit, arbitrary UTF-8 comments, "
+                      "pictures, application data, seek tables with placeholders, cue sheets from generated text; some lists break the "
+                      "single-instance rules on purpose); written with write_blocks through short writes/EINTR, read with read_blocks "
+                      "through short/one-byte reads/EINTR; c11flips = every single-bit flip of a metadata section, accepted ones must "
+                      "re-serialise and re-read equal"),
+                exhaustive_subspaces=["c11flips: every single-bit flip of each generated metadata section <= 1500 bytes"],
+                quick=[("c11", "release", 20000), ("c11flips", "release", 150)],
+                thorough=[("c11", "release", 1000000), ("c11", "checked", 100000), ("c11flips", "release", 8000)],
+                assumptions=["value space of blocks is sampled, not enumerated (pure-input quantifier)"]),
 }
